@@ -213,11 +213,13 @@ class Kernel:
 
     def ref(self, fname=None):
         """the sequential reading as a plain C++ function"""
-        out = [strip_attrs(self.pre)] if self.pre else []
+        out = [strip_attrs(self.pre).replace("hp_", "refhp_")] if self.pre else []
         args = [strip_attrs(a) for a in self.args]
         out.append("static void %s(%s) {" % (fname or (self.name + "_ref"), ", ".join(args)))
+        body = []
         for n in self.body:
-            render(n, out, 1, "ref", RefCtx())
+            render(n, body, 1, "ref", RefCtx())
+        out += [l.replace("hp_", "refhp_") for l in body]
         out.append("}")
         return "\n".join(out) + "\n"
 
@@ -261,6 +263,12 @@ def lid_expr(inner):
 
 
 def fill(text, mode, ctx):
+    def dim(m):
+        if mode == "okl":
+            return "%s(%s, %s)" % (m.group(1), m.group(2), m.group(3))
+        return "%s[(%s) + 4 * (%s)]" % (m.group(1), m.group(2), m.group(3))
+    text = re.sub(r"\{d:(\w+)\|([^|}]*)\|([^|}]*)\}", dim, text)
+
     def rep(m):
         name = m.group(1)
         if mode == "okl":
@@ -381,10 +389,10 @@ def gen_kernel(r, name="k", rich=True, exec_safe=True, feats=None):
         feats.add("restrict")
     pre = ""
     if rich and r.random() < 0.4:
-        pre = "int helper(const int a, const int b) {\n  return 3 * a + b;\n}\n"
+        pre = "int hp_%s(const int a, const int b) {\n  return 3 * a + b;\n}\n" % name
         feats.add("helper")
     K = Kernel(name, args, [], pre=pre)
-    K.meta = {"feats": feats, "groups": [], "N": None}
+    K.meta = {"feats": feats, "groups": [], "N": None, "M": None}
     body = K.body
     n_groups = r.choice([1, 1, 1, 2, 2, 3]) if rich else 1
     base = 0
@@ -427,7 +435,9 @@ def gen_group(r, K, g, base, rich, exec_safe):
             ohdrs.append(make_hdr(r, v, c, simple=not rich))
             ocounts.append(c)
     idims = list(r.choice(INNER_SHAPES)) if rich else [r.choice([2, 4])]
-    runtime_inner = rich and len(idims) == 1 and r.random() < 0.15
+    runtime_inner = rich and len(idims) == 1 and idims[0] >= 2 and r.random() < 0.15 and K.meta.get("M") in (None, idims[0])
+    if runtime_inner:
+        K.meta["M"] = idims[0]
     T = 1
     for c in idims:
         T *= c
@@ -646,9 +656,9 @@ def gen_body(r, ctx, inner, dec):
     if ctx["K"].meta.get("twoN") and r.random() < 0.5:
         terms.append("twoN")
     if "helper" in feats and r.random() < 0.6:
-        terms.append("helper(%s, %d)" % (lid, r.randrange(5)))
+        terms.append("hp_%s(%s, %d)" % (ctx["K"].name, lid, r.randrange(5)))
     if "dim" in feats and r.random() < 0.6:
-        terms.append("tab((%s) %% 4, (%s) %% 4)" % (lid, ctx["olin"]))
+        terms.append("{d:tab|(%s) %% 4|(%s) %% 4}" % (lid, ctx["olin"]))
     expr = " + ".join(terms)
     u = "s" * len(sh_reads) + "x" * len(ex_reads)
     first = ctx["sec"] == 0
@@ -1066,3 +1076,195 @@ def t_op(K, expect):
 
 def s_op(K):
     return "S %s %s" % (hexs(K.src()), K.ir())
+
+
+# --------------------------------------------------------------------------- execution of translations
+
+ARGSETS = [(1, 2), (3, 3), (MAXN, 4)]
+EMU = None   # set by the plugin: path of harness/okl_emu
+
+
+def parse_g(line):
+    """observation of a `G` op -> {mode: (device source, launcher source or None)} or None on failure"""
+    out = {}
+    for part in line.split():
+        if "=" not in part:
+            return None
+        m, v = part.split("=", 1)
+        if v == "fail":
+            out[m] = None
+            continue
+        d, _, l = v.partition(":")
+        out[m] = (bytes.fromhex(d).decode() if d != "-" else "", bytes.fromhex(l).decode() if l and l != "-" else None)
+    return out
+
+
+def arg_decl(a):
+    """('const int', 'N', is_pointer) of an OKL argument"""
+    a = strip_attrs(a).strip()
+    m = re.match(r"(.*?)(\*?)\s*(\w+)$", a)
+    return m.group(1).strip(), m.group(3), bool(m.group(2))
+
+
+def device_kernels(dev_src, name):
+    return sorted(set(re.findall(r"\b(_occa_%s_\d+)\s*\(" % re.escape(name), dev_src)), key=lambda x: int(x.rsplit("_", 1)[1]))
+
+
+def thunks(K, mode, dev_src):
+    """per extracted device kernel: a function that unpacks the launcher's type-erased arguments, and
+    the deviceKernels table"""
+    args = [arg_decl(a) for a in K.args]
+    out = []
+    names = device_kernels(dev_src, K.name)
+    for dk in names:
+        call = []
+        for i, (ty, nm, ptr) in enumerate(args):
+            if ptr:
+                call.append("(%s *) *(occa::modeMemory_t **) a[%d]" % (ty, i))
+            else:
+                call.append("*(%s *) a[%d]" % (ty, i))
+        if mode == "metal":
+            body = "uint3 g = {emu::tBlock.x, emu::tBlock.y, emu::tBlock.z}, t = {emu::tThread.x, emu::tThread.y, emu::tThread.z}; %s(%s, g, t);" % (dk, ", ".join(call))
+            out.append("static void thunk_%s(occa::dim o, occa::dim i, void **a) { emu::launch(occa::d3(o), occa::d3(i), [&]() { %s }); }" % (dk, body))
+        elif mode == "dpcpp":
+            out.append("static void thunk_%s(occa::dim o, occa::dim i, void **a) { sycl::queue q; occa::dim f; f.x = o.x * i.x; f.y = o.y * i.y; f.z = o.z * i.z;\n"
+                       "  sycl::nd_range<3> r(sycl::range<3>(f.z, f.y, f.x), sycl::range<3>(i.z, i.y, i.x)); %s(&q, &r, %s); }" % (dk, dk, ", ".join(call)))
+        else:
+            out.append("static void thunk_%s(occa::dim o, occa::dim i, void **a) { emu::launch(occa::d3(o), occa::d3(i), [&]() { %s(%s); }); }" % (dk, dk, ", ".join(call)))
+    out.append("static occa::modeKernel_t mk_%s[] = {%s};" % (K.name, ", ".join("{thunk_%s}" % d for d in names) or "{0}"))
+    out.append("static occa::modeKernel_t *dk_%s[] = {%s};" % (K.name, ", ".join("&mk_%s[%d]" % (K.name, i) for i in range(len(names))) or "0"))
+    return "\n".join(out) + "\n"
+
+
+def runner(K, mode):
+    """C++: run reference and translation of kernel K on every argument set, compare all arrays"""
+    args = [arg_decl(a) for a in K.args]
+    sizes = {"in": 64, "out": max(1, K.meta["out_cells"]), "acc": 4, "tab": 16}
+    L = ["static int run_%s() {" % K.name, "  int bad = 0;"]
+    argsets = [(n, K.meta["M"] or m) for n, m in ARGSETS]
+    L.append("  const int sets[][2] = {%s};" % ", ".join("{%d, %d}" % a for a in argsets))
+    L.append("  for (auto &st : sets) {")
+    L.append("    const int N = st[0], M = st[1]; (void) M;")
+    for ty, nm, ptr in args:
+        if not ptr:
+            continue
+        n = sizes[nm]
+        base = ty.replace("const", "").strip()
+        for tag in ("r", "t"):
+            # exact-size heap arrays: ASan reports any access outside what the kernel receives
+            L.append("    %s *%s_%s = new %s[%d];" % (base, nm, tag, base, n))
+            init = {"in": "(i * 7 + 3) % 23", "out": "1000 + i", "acc": "0", "tab": "(i * 5 + 1) % 11"}[nm]
+            L.append("    for (int i = 0; i < %d; ++i) %s_%s[i] = %s;" % (n, nm, tag, init))
+    call_r = ", ".join(("%s_r" % nm) if ptr else nm for ty, nm, ptr in args)
+    L.append("    %s_ref(%s);" % (K.name, call_r))
+    if mode in ("serial", "openmp"):
+        L.append("    %s(%s);" % (K.name, ", ".join(("%s_t" % nm) if ptr else nm for ty, nm, ptr in args)))
+    else:
+        L.append("    %s(dk_%s, %s);" % (K.name, K.name, ", ".join(("(occa::modeMemory_t *) %s_t" % nm) if ptr else nm for ty, nm, ptr in args)))
+    for ty, nm, ptr in args:
+        if ptr and "const" not in ty:
+            L.append("    for (int i = 0; i < %d; ++i) if (%s_r[i] != %s_t[i]) { if (!bad) printf(\"DIFF %s N=%%d M=%%d %s[%%d] got %%d want %%d\\n\", N, M, i, (int) %s_t[i], (int) %s_r[i]); ++bad; }"
+                     % (sizes[nm], nm, nm, K.name, nm, nm, nm))
+    for ty, nm, ptr in args:
+        if ptr:
+            L.append("    delete[] %s_r; delete[] %s_t;" % (nm, nm))
+    L.append("  }")
+    L.append("  if (emu::divergentBarriers) { printf(\"DIVERGENT-BARRIER %s\\n\"); ++bad; emu::divergentBarriers = 0; }" % K.name)
+    L.append("  if (!bad) printf(\"OK %s\\n\");" % K.name)
+    L.append("  return bad;")
+    L.append("}")
+    return "\n".join(L) + "\n"
+
+
+MODE_HDR = {"serial": None, "openmp": None, "cuda": "emu_cuda.hpp", "hip": "emu_cuda.hpp", "opencl": "emu_opencl.hpp",
+            "metal": "emu_metal.hpp", "dpcpp": "CL/sycl.hpp"}
+
+
+def build_tu(mode, items, omp_variant=None):
+    """one translation unit for `mode` holding all kernels.  items: [(Kernel, (device, launcher))]"""
+    P = ["// generated by tools/checks/okl_common.py: %s translations of %d kernels" % (mode, len(items)),
+         "#include <cstdio>", "#include <cstdlib>", "#include <cstddef>", "#include <cstdint>", '#include "emu.hpp"']
+    if mode == "openmp":
+        P.append("#include <omp.h>")
+    if MODE_HDR[mode]:
+        P.append('#include "%s"' % MODE_HDR[mode])
+    if mode == "hip":
+        P.append('#include "hip/hip_runtime.h"')
+    for K, (dev, lau) in items:
+        P.append("// ---------------- device code of %s" % K.name)
+        if mode == "openmp" and omp_variant == "runtime":
+            dev = dev.replace("#pragma omp parallel for", "#pragma omp parallel for schedule(runtime)")
+        P.append(dev)
+    if mode == "metal":
+        P.append("#undef kernel\n#undef device\n#undef constant\n#undef threadgroup")
+    if mode not in ("serial", "openmp"):
+        P.append('#include "occa/core/kernel.hpp"')
+        for K, (dev, lau) in items:
+            P.append("// ---------------- launcher of %s" % K.name)
+            P.append(thunks(K, mode, dev))
+            P.append(lau.replace("hp_", "lhp_"))   # the launcher source repeats the helper functions
+    for K, _ in items:
+        P.append("// ---------------- sequential reading of %s" % K.name)
+        P.append(K.ref())
+        P.append(runner(K, mode))
+    P.append("int main() {\n  int bad = 0;")
+    if mode == "openmp":
+        P.append("  const char *sch = getenv(\"EMU_SCHED\");   // kind,chunk for schedule(runtime) builds\n"
+                 "  if (sch) { int k = 1, c = 0; sscanf(sch, \"%d,%d\", &k, &c); omp_set_schedule((omp_sched_t) k, c); }")
+    for K, _ in items:
+        P.append("  bad += run_%s();" % K.name)
+    P.append("  return bad ? 1 : 0;\n}")
+    return "\n".join(P) + "\n"
+
+
+def translate_all(ck, hb, kernels):
+    """run the `G` op of the harness on every kernel; returns [{mode: (dev, launcher) | None}]"""
+    env = {"ASAN_OPTIONS": "detect_leaks=0:abort_on_error=0:exitcode=66:allocator_may_return_null=1"}
+    hs = [["G %s" % hexs(K.src())] for K in kernels]
+    obs, ora, notes = ck.run_impl(hb, hs, timeout=1800, env=env)
+    out = []
+    for K, o, oo in zip(kernels, obs, ora):
+        g = parse_g(o[0]) if o and not o[0].startswith(("CRASH", "HANG", "bad-op", "MISSING")) else None
+        out.append((g, oo))
+    return out
+
+
+def compile_and_run(ck, tag, tus, run_envs=None, timeout=1800):
+    """tus: {name: (source text, extra flags)}.  Compiles all in parallel, runs each (once per env in
+    run_envs[name], default one plain run).  Returns {name: [(env, rc, stdout, stderr)]} with rc None
+    when the compilation failed (stderr = compiler output)."""
+    import subprocess, os
+    from vlib import BUILD, VERIF
+    d = os.path.join(BUILD, "tmp", "okl_exec_%s_%d" % (tag, os.getpid()))
+    os.makedirs(d, exist_ok=True)
+    emu = os.path.join(VERIF, "harness", "okl_emu")
+    procs = {}
+    for name, (src, flags) in tus.items():
+        cpp = os.path.join(d, name + ".cpp")
+        open(cpp, "w").write(src)
+        cmd = ["g++", "-std=c++20", "-g", "-O0", "-w", "-fsanitize=address,undefined", "-fno-omit-frame-pointer",
+               "-I" + emu, "-pthread"] + list(flags) + [cpp, "-o", os.path.join(d, name)]
+        procs[name] = subprocess.Popen(cmd, stdout=subprocess.PIPE, stderr=subprocess.PIPE, text=True)
+    res = {}
+    for name, p in procs.items():
+        try:
+            so, se = p.communicate(timeout=timeout)
+        except subprocess.TimeoutExpired:
+            p.kill()
+            so, se = p.communicate()
+            se += "\ncompile timeout"
+        if p.returncode != 0:
+            res[name] = [({}, None, "", se[-3000:])]
+            continue
+        res[name] = []
+        for env in (run_envs or {}).get(name, [{}]):
+            e = dict(os.environ)
+            e.update({"ASAN_OPTIONS": "detect_leaks=0:abort_on_error=0:exitcode=66", "UBSAN_OPTIONS": "halt_on_error=0:print_stacktrace=0"})
+            e.update(env)
+            try:
+                q = subprocess.run([os.path.join(d, name)], capture_output=True, text=True, timeout=timeout, env=e, errors="replace")
+                res[name].append((env, q.returncode, q.stdout, q.stderr[-3000:]))
+            except subprocess.TimeoutExpired:
+                res[name].append((env, -999, "", "run timeout"))
+    ck.cov["counters"]["exec_dir"] = d
+    return res
